@@ -102,13 +102,9 @@ def hassh_same(model_line, impl_line):
         return False
     if md5hex(unhx(m[2])) != r[2] or md5hex(unhx(m[3])) != r[3]:
         return False
-    # the specification's preimage (Lean, from the wire) must agree as well — except for the tolerated
-    # trailing comma, which is reported by the implementation-side oracle under its own key
+    # the specification's preimage (Lean, sliced from the wire) must agree as well
     for spec, got in ((m[4], r[2]), (m[5], r[3])):
-        if spec == 'NONE':
-            return False
-        pre = unhx(spec)
-        if md5hex(pre) != got and not any(s.endswith(b',') for s in pre.split(b';')):
+        if spec == 'NONE' or md5hex(unhx(spec)) != got:
             return False
     return True
 
